@@ -168,6 +168,49 @@ pub fn run(tier: Tier) -> Run {
             ));
         }
     }
+    // ---- a predicate is a function of the opcode alone: its answer for b directly after it was asked about a (every ordered
+    //      pair of opcodes, every predicate, also across predicates), and after 300 repetitions of the same question, is the
+    //      answer it gives when asked in isolation
+    {
+        use rayon::prelude::*;
+        let ops: Vec<(spirv::Op, &str)> = g.insts.iter().filter_map(|w| spirv::Op::from_u32(w.opcode as u32).map(|o| (o, w.name.as_str()))).collect();
+        let alone: Vec<Vec<bool>> = ops.iter().map(|(o, _)| PREDICATES.iter().map(|p| (p.1)(*o)).collect()).collect();
+        let bad: Vec<crate::report::Viol> = (0..ops.len())
+            .into_par_iter()
+            .filter_map(|ai| {
+                let (a, an) = ops[ai];
+                for (bi, (b, bn)) in ops.iter().enumerate() {
+                    for (pi, (pn, pf)) in PREDICATES.iter().enumerate() {
+                        let _ = pf(a);
+                        if pf(*b) != alone[bi][pi] {
+                            return Some(viol(format!("C16:{}:after-another-opcode", pn), format!("{}(Op{}) directly after {}(Op{}) = {}, asked alone {}", pn, bn, pn, an, !alone[bi][pi], alone[bi][pi]), json!({"kind": "c16-pair", "predicate": pn, "first": an, "second": bn})));
+                        }
+                        // across predicates: the previous question was another predicate's
+                        let (qn, qf) = PREDICATES[(pi + 1) % PREDICATES.len()];
+                        let _ = qf(a);
+                        if pf(*b) != alone[bi][pi] {
+                            return Some(viol(format!("C16:{}:after-another-predicate", pn), format!("{}(Op{}) directly after {}(Op{}) = {}, asked alone {}", pn, bn, qn, an, !alone[bi][pi], alone[bi][pi]), json!({"kind": "c16-pair", "predicate": pn, "first": an, "second": bn})));
+                        }
+                    }
+                }
+                for (pi, (pn, pf)) in PREDICATES.iter().enumerate() {
+                    for _ in 0..300 {
+                        let _ = pf(a);
+                    }
+                    let next = ops[(ai + 1) % ops.len()];
+                    if pf(a) != alone[ai][pi] || pf(next.0) != alone[(ai + 1) % ops.len()][pi] {
+                        return Some(viol(format!("C16:{}:after-repetition", pn), format!("{} answers differently after 300 questions about Op{}", pn, an), json!({"kind": "c16-repeat", "predicate": pn, "opcode": an})));
+                    }
+                }
+                None
+            })
+            .collect();
+        evals += (ops.len() * ops.len() * PREDICATES.len() * 2) as u64;
+        run.outcome("ordered_opcode_pairs_per_predicate", (ops.len() * ops.len()) as u64);
+        for v in bad.into_iter().take(5) {
+            run.add(v);
+        }
+    }
     // ---- the Builder half, decided by the vcalls binary over every instruction-emitting Builder method
     let vcalls = crate::report::verif_root().join("harness").join("target").join("release").join("vcalls");
     match std::process::Command::new(&vcalls).arg("--c16").output() {
